@@ -225,6 +225,50 @@ Definition marks_pred (topics : list bytes) (rs : list krec) (steps : list marks
     forallb (forallb (head_of_some_record rs)) steps && steps_monotone [] steps
   else true.
 
+(* ---- the topic index <-> topic name resolution, as a function of the CONFIGURED list ---------------
+   Start (kafka.go:285-288) fills idByTopic from the positions of config.Topics — the LAST position of a name
+   that is listed more than once —, the consumer packs that index into the source id, and Commit (kafka.go:
+   331-337) turns the index back into a name by reading config.Topics[index]. The two ends only fit together
+   when both read the same list: index_of_topic / topic_of_index are the two directions, over the list as the
+   configuration gives it (repeats, any order, names that are prefixes of one another). Round trip:
+   Proofs/Kafka.v topic_resolution_roundtrip. *)
+Definition index_of_topic (topics : list bytes) (name : bytes) : Z := id_by_topic topics name.
+Definition topic_of_index (topics : list bytes) (index : Z) : res bytes := idx topics index.
+(* the executable form of the round trip, evaluated by the sub-models on every case's topics list *)
+Definition topics_resolve_b (topics : list bytes) : bool :=
+  forallb (fun t => match topic_of_index topics (index_of_topic topics t) with
+                    | Ok n => N_eqb_list n t
+                    | _ => false
+                    end) topics.
+
+(* ---- a mark exists only for an ACKNOWLEDGED record of exactly that topic and partition -------------
+   snaps_of acked calls: the records acknowledged (Commit was called for them) after the 1st, 2nd, ... call of
+   [calls], given those acknowledged before; acks_pred snaps steps: every head visible after the i-th step is
+   (offset + 1, epoch) of a record acknowledged BY THEN, under that record's own topic name and partition.
+   (marks_pred above only asks for a CONSUMED record.) More steps than acknowledgements: false. *)
+Fixpoint snaps_of (acked : list krec) (calls : list krec) : list (list krec) :=
+  match calls with
+  | [] => []
+  | r :: cr => (r :: acked) :: snaps_of (r :: acked) cr
+  end.
+Fixpoint acks_pred (snaps : list (list krec)) (steps : list marks) : bool :=
+  match steps with
+  | [] => true
+  | m :: sr =>
+      match snaps with
+      | a :: ar => forallb (head_of_some_record a) m && acks_pred ar sr
+      | [] => false
+      end
+  end.
+(* the clause on an observed trace of marks after the Commit calls for the ks-th of the records rs *)
+Definition acked_marks_pred (topics : list bytes) (rs : list krec) (ks : list Z) (steps : list marks) : bool :=
+  if forallb (rec_in_range_b topics) rs then
+    match pick rs ks with
+    | Some cs => acks_pred (snaps_of [] cs) steps
+    | None => false
+    end
+  else true.
+
 Definition c10_commit_run (case obs : sx) : verdict :=
   match case with
   | SL [SL ts; SL recs; SL order] =>
@@ -244,6 +288,7 @@ Definition c10_commit_run (case obs : sx) : verdict :=
                         match opt_map (as_list mark_of_sx) osteps with
                         | Some steps =>
                             marks_pred topics rs steps
+                            && acked_marks_pred topics rs ks steps
                             && (if forallb (rec_in_range_b topics) rs
                                 then (ost =? 0) && (Z.of_nat (length steps) =? Z.of_nat (length ks)) else true)
                         | None => false
@@ -428,6 +473,7 @@ Definition c10_session_run (case obs : sx) : verdict :=
                         match opt_map (as_list mark_of_sx) osteps with
                         | Some steps =>
                             marks_pred topics rs steps
+                            && acked_marks_pred topics rs idxs steps
                             && (if forallb (rec_in_range_b topics) rs
                                 then (ost =? 0) && (Z.of_nat (length steps) =? Z.of_nat (length idxs)) else true)
                         | None => false
